@@ -633,7 +633,8 @@ def _balance(ctx, p, r_bal):
                         if bi in reach and b.crate.body(t['func'].get('path', '')) in p['methods'] and
                         any(P.node_vec_ty(p, b.local_ty((a.get('move') or a.get('copy'))['l']))
                             for a in t['args'] if (a.get('move') or a.get('copy')) is not None and not (a.get('move') or a.get('copy'))['p'])
-                        and b.crate.body(t['func']['path']).j.get('ret_ty', '').startswith('std::option::Option<')]
+                        and (b.crate.body(t['func']['path']).j.get('ret_ty', '').startswith('std::option::Option<') or
+                             _max_pushes_per_call(ctx, p, ctx.fn(b.crate.body(t['func']['path'])), {}))]    # the helper that extends a tree
 
         def cont_names(bi, t):
             for a in t['args']:
@@ -752,7 +753,8 @@ def _balance(ctx, p, r_bal):
                     if rhs_ok:
                         on_true = (n[1].endswith('::eq')) != neg
                         reached_edges.add((sb, other if on_true else tmap['0']))
-                elif n[0] == 'discr' and from_second(n[1]) and all(x[0] == 'field' for x in n[1]):
+                elif n[0] == 'discr' and from_second(n[1]) and (all(x[0] == 'field' for x in n[1]) or
+                                                                 all(x[0] == 'call' and x[3] in second_sites for x in n[1])):
                     # `match extend(..) { Some((ExtendResult::Reached, i)) => .. }`: the edge of the Reached variant
                     for ename, adt in b.crate.adts.items():
                         names = [v['name'] for v in adt['variants']]
